@@ -33,7 +33,13 @@ func (s *attackSim) run(keep bool) {
 	s.stopsLeft = cfg.StopCalls
 
 	client := &http.Client{Transport: &simTransport{plans: cfg.Plans}}
-	atk := vegeta.NewAttacker(vegeta.Client(client), vegeta.Workers(uint64(cfg.W)), vegeta.MaxWorkers(uint64(cfg.M)), vegeta.MaxBody(cfg.MaxBody))
+	// the options in a tape-chosen order: none of them may depend on its position
+	opts := []func(*vegeta.Attacker){vegeta.Client(client), vegeta.Workers(uint64(cfg.W)), vegeta.MaxWorkers(uint64(cfg.M)), vegeta.MaxBody(cfg.MaxBody)}
+	for i := len(opts) - 1; i > 0; i-- {
+		j := s.tape.Choose(i + 1)
+		opts[i], opts[j] = opts[j], opts[i]
+	}
+	atk := vegeta.NewAttacker(opts...)
 	pacer := &simPacer{real: cfg.Real}
 	w.Log.Addf("config W=%d M=%d du=%d name=%q pacer=%d stopAt=%d tgtErrAt=%d cons=%d stops=%d/%d arms=%v mediate=%v plans=%d",
 		cfg.W, cfg.M, cfg.Du, cfg.Name, cfg.PacerMode, cfg.StopAtCall, cfg.TgtErrAt, cfg.Consumers, cfg.StopCalls, cfg.Stoppers, cfg.Arms, cfg.Mediate, len(cfg.Plans))
